@@ -141,6 +141,18 @@ def run_shard(ctx):
         except Violation as v:
             ctx.violation(case, f"[fork shape {tag}] " + str(v))
             return
+    # directly nested (bunched) forks (24 definitions, outside F)
+    for i, (tag, ast) in enumerate(gen.bunched_fork_shapes()):
+        if i % ctx.nshards != ctx.shard:
+            continue
+        case = {"defn": ps.to_json(ast), "k": 2 if ID == "C02" else 1,
+                "pick": None, "sched": ctx.seed * 1000 + i}
+        ctx.count("bunched_fork_shapes_enumerated")
+        try:
+            run_case(case, ctx)
+        except Violation as v:
+            ctx.violation(case, f"[bunched shape {tag}] " + str(v))
+            return
     # loops ending in a fork inside nested forks (24 definitions)
     for i, (tag, ast) in enumerate(gen.deep_loop_fork_shapes()):
         if i % ctx.nshards != ctx.shard:
